@@ -181,5 +181,9 @@ def run_models(ctx, quick, mine):
     for cst, inv in runs:
         r = tlc.run_tlc("MGH", workers=16, constants=cst, invariants=inv, heap="8g", timeout=7200)
         ctx.model("MGH %s %s" % (cst, inv), r, constants=cst)
-    r = tlc.run_tlc("FeasMGH", workers=16, constants=dict(MaxD=3, MaxCnt=3) if quick else dict(MaxD=4, MaxCnt=3), invariants=["GreedyEqDecl"], heap="8g")
-    ctx.model("FeasMGH GreedyEqDecl", r)
+    if mine == "C05":
+        ctx.liveness("MGH", dict(MaxV=3 if quick else 4, WithUb=True), ["Termination", "LoopVariant"])
+    # (MaxD=4, MaxCnt=3 does not finish in an hour: the declarative side is a backtracking search over up to 12 items)
+    for cst in ([dict(MaxD=3, MaxCnt=3)] if quick else [dict(MaxD=3, MaxCnt=3), dict(MaxD=4, MaxCnt=2), dict(MaxD=5, MaxCnt=1)]):
+        r = tlc.run_tlc("FeasMGH", workers=16, constants=cst, invariants=["GreedyEqDecl"], heap="8g", timeout=7200)
+        ctx.model("FeasMGH GreedyEqDecl %s" % cst, r, constants=cst)
